@@ -21,8 +21,31 @@ Proof.
 Qed.
 
 (* class-specific __init__ forms the theorem covers so far: those that leave the keyword arguments alone *)
-Definition init_ok (i : preinit) : bool :=
-  match i with INone | IObservedDataWarn | IBundleObjects => true | _ => false end.
+Definition init_ok (vr : variant) (i : preinit) : bool :=
+  match i with
+  | INone | IObservedDataWarn | IBundleObjects => true
+  | IPositional _ => vr_positional_none vr      (* the repaired form: only a null value is dropped *)
+  | _ => false
+  end.
+
+(* the keyword filter of the positional __init__ form *)
+Definition pos_filter (vr : variant) (names : list ustring) (kw : list (ustring * jvalue)) : list (ustring * jvalue) :=
+  filter (fun kv => negb (mem_ustr (fst kv) names) ||
+                    (if vr_positional_none vr then negb (jvalue_eqb (snd kv) JNull) else truthy (snd kv))) kw.
+
+Lemma pos_filter_id : forall vr names kw,
+  vr_positional_none vr = true -> (forall kv, In kv kw -> jvalue_eqb (snd kv) JNull = false) -> pos_filter vr names kw = kw.
+Proof.
+  intros vr names kw Hv H. unfold pos_filter. apply filter_all_true. intros kv Hin. rewrite Hv. rewrite (H kv Hin).
+  cbn [negb]. apply orb_true_r.
+Qed.
+
+Lemma plain_members_nonnull : forall kw, plain_dict kw = true -> forall kv, In kv kw -> jvalue_eqb (snd kv) JNull = false.
+Proof.
+  intros kw Hp kv Hin. unfold plain_dict in Hp. rewrite forallb_forall in Hp. specialize (Hp kv Hin).
+  unfold plain_member in Hp. apply andb_true_iff in Hp. destruct Hp as [Hp _]. apply andb_true_iff in Hp. destruct Hp as [_ Hn].
+  apply negb_true_iff in Hn. destruct (snd kv); auto; discriminate.
+Qed.
 
 Definition is_sco21 (c : cls) : bool :=
   match cfamily c, cver c with FSco, V21 => true | _, _ => false end.
@@ -46,7 +69,7 @@ Section Knot.
     match find_class (wclasses w) cid0 with Some c => negb (is_sco21 c) | None => false end.
 
   Definition class_ok (c : cls) : bool :=
-    nodupb (map sname (cslots c)) && forallb (slot_ok vr nestable) (cslots c) && init_ok (cinit c) &&
+    nodupb (map sname (cslots c)) && forallb (slot_ok vr nestable) (cslots c) && init_ok vr (cinit c) &&
     (negb (is_sco21 c) ||
      match slot_of c (u "id") with Some sl => match sdef sl with DUuid4 => true | _ => false end | None => false end).
 
@@ -81,7 +104,8 @@ Section Knot.
       mem_ustr kid ids = true -> plain_dict kw = true -> id_given kid kw = true ->
       RUN fuel (RConstruct kid allow interop kw vrefs) = Ok o ->
       encode false o = JObj (omem o) /\ reserved_kw (omem o) = Ok tt /\
-      RUN fuel (RConstruct kid allow interop (omem o) vrefs) = Ok o.
+      RUN fuel (RConstruct kid allow interop (omem o) vrefs) = Ok o /\
+      plain_dict (omem o) = true.
 
   Lemma claim_rc : forall f, claim f ->
     rc_idem (fun k a i kw0 => RUN f (RConstruct k a i kw0 None)) nestable.
@@ -102,7 +126,7 @@ Section Knot.
 
   (* what a successful constructor run is: the class and the generic constructor over the recursive calls *)
   Lemma run_construct_cg : forall f kid allow interop kw vrefs o,
-    mem_ustr kid ids = true -> id_given kid kw = true ->
+    mem_ustr kid ids = true -> plain_dict kw = true -> id_given kid kw = true ->
     RUN (S f) (RConstruct kid allow interop kw vrefs) = Ok o ->
     exists c, find_class (wclasses w) kid = Some c /\ class_ok c = true /\
       construct_generic vr ev w pattern_ok selectors_ok
@@ -112,7 +136,7 @@ Section Knot.
         (S f) c allow interop kw []
         (match cfamily c with FSco => Some match vrefs with Some r => r | None => [] end | _ => None end) = Ok o.
   Proof.
-    intros f kid allow interop kw vrefs o Hm Hid H. cbn [run] in H.
+    intros f kid allow interop kw vrefs o Hm Hpl Hid H. cbn [run] in H.
     destruct (find_class (wclasses w) kid) as [c |] eqn:Ef; try discriminate.
     exists c. split; [reflexivity |]. pose proof (ids_class_ok kid c Hm Ef) as Hok. split; [exact Hok |].
     unfold class_ok in Hok.
@@ -120,8 +144,17 @@ Section Knot.
     destruct (amem (u "_valid_refs") kw || amem (u "allow_custom") kw || amem (u "interoperability") kw || amem (u "self") kw);
       try discriminate.
     unfold bind in H.
-    destruct (cinit c); try discriminate;
-      match type of H with match ?g with _ => _ end = _ => destruct g as [obj | |] eqn:Eg; try discriminate end.
+    destruct (cinit c) as [| names | | | | |]; try discriminate.
+    2:{ cbn [init_ok] in Hinit.
+        match type of H with context [filter ?g kw] =>
+          change (filter g kw) with (pos_filter vr names kw) in H end.
+        rewrite (pos_filter_id vr names kw Hinit (plain_members_nonnull kw Hpl)) in H.
+        match type of H with match ?g with _ => _ end = _ => destruct g as [obj | |] eqn:Eg; try discriminate end.
+        unfold id_given in Hid; rewrite Ef in Hid; unfold is_sco21 in Hid.
+        destruct obj; try (inv H; reflexivity).
+        destruct (cfamily c); try (inv H; reflexivity); destruct (cver c); try (inv H; reflexivity).
+        cbn [negb orb] in Hid; rewrite Hid in H; inv H; reflexivity. }
+    all: match type of H with match ?g with _ => _ end = _ => destruct g as [obj | |] eqn:Eg; try discriminate end.
     all: unfold id_given in Hid; rewrite Ef in Hid; unfold is_sco21 in Hid.
     all: destruct obj; try (inv H; reflexivity).
     all: destruct (cfamily c); try (inv H; reflexivity); destruct (cver c); try (inv H; reflexivity).
@@ -159,8 +192,13 @@ Section Knot.
                   else Ok obj
                 | _, _, _ => Ok obj
                 end = Ok o).
-      { destruct (cinit c); try discriminate;
-          match type of H with match ?g with _ => _ end = _ => destruct g as [obj | |] eqn:Eg; try discriminate end;
+      { destruct (cinit c) as [| names | | | | |]; try discriminate.
+        2:{ cbn [init_ok] in Hinit.
+            match type of H with context [filter ?g kw] => change (filter g kw) with (pos_filter vr names kw) in H end.
+            rewrite (pos_filter_id vr names kw Hinit (plain_members_nonnull kw Hp)) in H.
+            match type of H with match ?g with _ => _ end = _ => destruct g as [obj | |] eqn:Eg; try discriminate end.
+            exists obj; auto. }
+        all: match type of H with match ?g with _ => _ end = _ => destruct g as [obj | |] eqn:Eg; try discriminate end;
           exists obj; auto. }
       clear H. destruct Hgen as [obj [Hcg Hpost]].
       destruct (cg_idem vr ev w pattern_ok selectors_ok rc rp ro nestable Hpad Hrc c allow interop vrf Hnd Hslots (S f) kw obj Hp Hcg)
@@ -187,18 +225,21 @@ Section Knot.
       assert (In3 : In (u "interoperability") reserved_names) by (unfold reserved_names; cbn [map In]; repeat (try (left; reflexivity); right)).
       assert (In4 : In (u "self") reserved_names) by (unfold reserved_names; cbn [map In]; repeat (try (left; reflexivity); right)).
       split; [rewrite encode_obj; reflexivity |].
-      split.
+      assert (Hplw : plain_dict (written c Sv) = true).
+      { destruct (cg_written_plain vr ev w pattern_ok selectors_ok rc rp ro nestable Hpad Hrc c allow interop vrf Hnd Hslots (S f) kw _ Hp Hcg)
+          as [S2 [hc2 [E2 Hpl2]]]. inversion E2; subst. exact Hpl2. }
+      split; [| split; [| exact Hplw]].
       + unfold reserved_kw. rewrite (Hresv _ In2 R2), (Hresv _ In3 R3), (Hresv _ In4 R4). reflexivity.
       + rewrite (Hresv _ In1 R1), (Hresv _ In2 R2), (Hresv _ In3 R3), (Hresv _ In4 R4). cbn [orb].
         fold vrf. fold rc. fold rp. fold ro.
-        assert (Hgen2 : match cinit c with
-                        | INone | IObservedDataWarn | IBundleObjects =>
-                          construct_generic vr ev w pattern_ok selectors_ok rc rp ro (S f) c allow interop (written c Sv) [] vrf
-                        | _ => Unmodelled
-                        end = Ok (PObject (cid c) Sv (defaulted_names c Sv) hc)).
-        { destruct (cinit c); try discriminate; exact Hre. }
         unfold bind.
-        destruct (cinit c); try discriminate; rewrite Hre.
+        destruct (cinit c) as [| names | | | | |]; try discriminate.
+        2: (cbn [init_ok] in Hinit;
+            match goal with |- context [filter ?g (written c Sv)] => change (filter g (written c Sv)) with (pos_filter vr names (written c Sv)) end;
+            rewrite (pos_filter_id vr names (written c Sv) Hinit
+                       (cg_written_members_nonnull vr ev w pattern_ok selectors_ok rc rp ro nestable Hrc c allow interop vrf Hnd Hslots
+                          (S f) kw Sv _ hc Hp Hcg))).
+        all: rewrite Hre.
         all: unfold id_given in Hid; rewrite Ef in Hid; unfold is_sco21 in Hid, Hidslot.
         all: destruct (cfamily c); try reflexivity; destruct (cver c); try reflexivity.
         all: cbn [negb orb] in Hid, Hidslot.
@@ -242,7 +283,8 @@ Section Corollaries.
     run vr ev w pattern_ok selectors_ok fuel (RConstruct kid allow interop kw vrefs) = Ok o ->
     run vr ev w pattern_ok selectors_ok fuel (RConstruct kid allow interop (omem o) vrefs) = Ok o.
   Proof.
-    intros. eapply (run_construct_idem vr ev w pattern_ok selectors_ok Hpad ids Hclosed fuel); eauto.
+    intros fuel kid allow interop kw vrefs o Hm Hp Hid H.
+    destruct (run_construct_idem vr ev w pattern_ok selectors_ok Hpad ids Hclosed fuel kid allow interop kw vrefs o Hm Hp Hid H) as [_ [_ [Hr _]]]. exact Hr.
   Qed.
 
   (* ... hence serializing that object again gives the same ordered members, under every option set *)
